@@ -1,3 +1,85 @@
-(* C01 - placeholder while the invariant is built *)
-From Tramp Require Import Model.Base Model.Sys.
-Theorem C01_placeholder : True. Proof. exact I. Qed.
+(* C01 — an incoming HTLC is settled only with a preimage of its own payment hash.
+
+   "Whenever the plugin tells the node to settle an incoming HTLC, the key it supplies hashes (SHA-256)
+    to that HTLC's payment hash and comes from a completed outgoing payment, or the durable record of
+    one, for that same hash. Consequently the plugin never pays an invoice on behalf of an HTLC whose
+    payment hash differs from the invoice's payment hash."
+
+   The theorems are generic in a predicate [good] on keys. The ENVIRONMENT is assumed to produce only good
+   keys: a part completes with a good key, a 'complete' pay answer carries a good key (contract N1:
+   Lightning guarantees a part of hash H completes only with a preimage of H), and the node state found at
+   start is good. Then every key the plugin ever settles with is good — for every history: any HTLC
+   arrivals, RPC faults, interleavings of lifecycles, crashes. Two instances:
+     good p := sha p = H          (the key hashes to the hash of this component; SHA-256 itself is not modelled)
+     good p := In p keys          (the key IS one the node reported for this hash: "comes from a completed
+                                   outgoing payment, or the durable record of one")
+   The tree is the one after the D1 repair: an HTLC is routed to the component of ITS OWN hash (C01_own_hash). *)
+From Tramp Require Import Model.Base Model.Tlv Model.Fee Model.Classify Model.Node Model.Provider Model.Sys.
+From Tramp Require Import Proofs.SysBasics Proofs.EntryProofs Proofs.SysEntry Proofs.SysShape Proofs.SysTheorems Proofs.SysReach Proofs.SysPreimage
+  Proofs.ClassifyProofs Check.SysCheck.
+
+(* all outputs of a history *)
+Fixpoint all_outs (c : cfg) (s : sys) (evs : list event) : list output :=
+  match evs with [] => [] | ev :: r => snd (step c s ev) ++ all_outs c (fst (step c s ev)) r end.
+
+Lemma InvS_start good n t0 h0 a0 : node_good good n -> InvS good (sys_start n t0 h0 a0).
+Proof. intros H. constructor; [exact H|]. intros [|k] cl Hk; discriminate. Qed.
+
+Theorem C01_key : forall (good : list N -> Prop) c n t0 h0 a0 evs,
+  node_good good n -> Forall (ev_good good) evs ->
+  forall h p, In (OResp h (Resolve p)) (all_outs c (sys_start n t0 h0 a0) evs) -> good p.
+Proof.
+  intros good c n t0 h0 a0 evs Hn Hev.
+  assert (G : forall evs s, reachable c s -> InvS good s -> InvF s -> Forall (ev_good good) evs ->
+              forall h p, In (OResp h (Resolve p)) (all_outs c s evs) -> good p).
+  { induction evs0 as [|ev r IH]; intros s Hr HS HF Hevs h p Hin; [destruct Hin|].
+    inversion Hevs as [|? ? He Hr']; subst. cbn [all_outs] in Hin. apply in_app_or in Hin as [Hin|Hin].
+    - exact (settle_key_good good c s ev h p HS HF He Hin).
+    - destruct (reachable_inv c s Hr) as (HU & HE & _).
+      exact (IH _ (reach_step c s ev Hr) (step_InvS good c s ev HS He) (step_InvF c s ev HU HE HF) Hr' h p Hin). }
+  apply (G evs _ (reach_start c n t0 h0 a0) (InvS_start good n t0 h0 a0 Hn)); [intros e He; discriminate|exact Hev].
+Qed.
+
+(* instance 1: the key hashes to the payment hash (for ANY function sha; N1 is the hypothesis on the environment) *)
+Corollary C01_key_hashes_to_own_hash : forall (sha : list N -> list N) (H : list N) c n t0 h0 a0 evs,
+  node_good (fun p => sha p = H) n -> Forall (ev_good (fun p => sha p = H)) evs ->
+  forall h p, In (OResp h (Resolve p)) (all_outs c (sys_start n t0 h0 a0) evs) -> sha p = H.
+Proof. intros sha H. exact (C01_key (fun p => sha p = H)). Qed.
+
+(* instance 2: the key is one the node produced: a completed part, a 'complete' pay answer, or the record found at start *)
+Definition env_keys (n : node) (evs : list event) : list (list N) :=
+  match ds n with Some (DSucc p, _) => [p] | _ => [] end ++ done_pres (parts n) ++
+  flat_map (fun ev => match ev with EvPart _ (PDone p) => [p] | EvPayFinish _ (PayComplete p) => [p] | _ => [] end) evs.
+
+Corollary C01_key_comes_from_completed_payment : forall c n t0 h0 a0 evs h p,
+  In (OResp h (Resolve p)) (all_outs c (sys_start n t0 h0 a0) evs) -> In p (env_keys n evs).
+Proof.
+  intros c n t0 h0 a0 evs h p. apply (C01_key (fun p => In p (env_keys n evs))).
+  - split.
+    + intros p0 g Hd. unfold env_keys. rewrite Hd. left. reflexivity.
+    + intros p0 Hp. unfold env_keys. apply in_or_app. right. apply in_or_app. left. apply done_pres_spec. exact Hp.
+  - apply Forall_forall. intros ev Hev. unfold ev_good, env_keys.
+    destruct ev as [| | |pid [|p0|]| |cid [p0| | | |]| | |]; try exact I;
+      (apply in_or_app; right; apply in_or_app; right; apply in_flat_map; eexists; split; [exact Hev|left; reflexivity]).
+Qed.
+
+(* an HTLC is handed to the component of its OWN payment hash: the invoice attached to it is for that hash (D1 repair),
+   so the invoice paid for a component is never paid on behalf of an HTLC with another hash *)
+Theorem C01_own_hash : forall (w : world) (rq : request) (h : nat) (t : tramp_info),
+  gclassify w rq = KTramp h t -> hash_index w (r_hash rq) = Some h /\ ti_hash t = r_hash rq.
+Proof.
+  intros w rq h t H. unfold gclassify in H.
+  destruct (try_from true (r_payload rq)) as [es| |] eqn:Ees; try discriminate.
+  destruct (classify_entries (oracle_of (w_oracle w)) true (w_ccfg w) rq es) as [r|t'|] eqn:Ec; try discriminate.
+  destruct (hash_index w (ti_hash t')) as [h'|] eqn:Eh; [|discriminate]. inversion H; subst h' t'.
+  assert (Hc : classify (oracle_of (w_oracle w)) true (w_ccfg w) rq = CTramp t) by (unfold classify; rewrite Ees; exact Ec).
+  destruct (classify_tramp_sound _ _ _ _ Hc) as (es' & md & mes & ib & iv & _ & _ & _ & _ & _ & _ & _ & Hh & Ht & _).
+  rewrite Ht, Hh in Eh. split; [exact Eh|congruence].
+Qed.
+
+Example C01_nonvacuous :
+  let c := {| mpp_ms := 60000; pol := {| fee_base := 0; fee_ppm := 0; pol_delta := 40 |}; cltv_delta := 6; retry_for := 60 |} in
+  let h := {| hid := 7; blob := [1]; deliver := 10; inv_amount := Some 10; amt := 10; total := 10; expiry := 1000; rel := 100%Z |} in
+  let n := {| ds := Some (DSucc [9; 9], 3); atts := []; parts := []; payrun := 0 |} in
+  all_outs c (sys_start n 0 0 0) [EvHtlc h; EvProcess 0 NoFault; EvDeliver 0 true] = [OCall 0 QListState; OResp 7 (Resolve [9; 9])].
+Proof. vm_compute. reflexivity. Qed.
